@@ -15,6 +15,12 @@ def main(argv):
         print(__doc__)
         return 2
     if argv[0] == "replay":
+        import json
+
+        if json.load(open(argv[1])).get("property") == "C19":
+            from .threadsim import replay
+
+            return replay(argv[1])
         from .runner import replay_file
 
         return replay_file(argv[1])
